@@ -462,6 +462,23 @@ def gen_ep_config_program(rng, name, overrides, migrate, reply, replies_feature)
         # `sv::features(replies)` switched on, but no reply method declared: there is nothing to emit a reply entry point for
         p["replies"] = True
     p["overrides"] = [{"kind": k, "fn": f"ov_{k}", "msg": ("Reply" if k == "reply" else "svmon::OvMsg")} for k in overrides]
+    # the kind of an override is what the attribute says: neither the name of the user's function (which may be the name of
+    # another entry point) nor the name of its message type (which may be that of a message generated for another kind)
+    sib = {"migrate": "sudo", "sudo": "migrate", "exec": "instantiate", "instantiate": "exec"}
+    gen_of_sib = {"migrate": "ContractSudoMsg", "sudo": "MigrateMsg", "exec": "InstantiateMsg", "instantiate": "ContractExecMsg", "query": "ContractQueryMsg"}
+    taken = set()
+    for ov in p["overrides"]:
+        k = ov["kind"]
+        c = rng.random()
+        cand = EP_OF[sib[k]] if (k in sib and c < 0.3) else (EP_OF[k] if c < 0.45 else ov["fn"])
+        if cand not in taken:
+            ov["fn"] = cand
+        taken.add(ov["fn"])
+        if k in gen_of_sib and rng.random() < 0.3:
+            ov["msg"] = "ovnames::" + gen_of_sib[k]
+    if any(ov["msg"].startswith("ovnames::") for ov in p["overrides"]):
+        p["pre_items"] = list(p.get("pre_items", [])) + [
+            "pub mod ovnames { " + " ".join(f"pub type {n} = svmon::OvMsg;" for n in sorted(set(gen_of_sib.values()))) + " }"]
     p["ep_config"] = {"overrides": list(overrides), "migrate": migrate, "reply": reply}
     return p
 
